@@ -41,3 +41,30 @@ Theorem area_seg_translate : forall s dxx dyy,
   == area_seg s - dyy * (fst (seg_end s) - fst (seg_start s)).
 Proof. exact Proofs.area_seg_translate. Qed.
 Print Assumptions area_seg_translate.
+
+(* ---- the segment protocol -> point protocol -> segment protocol round trip (ModelPointPen.v: SegmentToPointPen and
+   PointToSegmentPen with its default outputImpliedClosingLine=False) *)
+From FV Require C14.ModelPointPen C14.ProofsPointPen.
+Theorem pointpen_roundtrip_open : forall A segs, forallb ProofsPointPen.wf_seg segs = true ->
+  exists pts, ModelPointPen.segment_to_point (MoveTo A :: segs ++ [EndPath]) = Ok [pts] /\
+              ModelPointPen.point_to_segment pts false = Ok (MoveTo A :: segs ++ [EndPath]).
+Proof. exact ProofsPointPen.roundtrip_open. Qed.
+Print Assumptions pointpen_roundtrip_open.
+
+Theorem pointpen_roundtrip_closed : forall A segs, forallb ProofsPointPen.wf_seg segs = true ->
+  ProofsPointPen.roundtrip (MoveTo A :: segs ++ [ClosePath]) = Ok (ProofsPointPen.canon_closed A segs).
+Proof. exact ProofsPointPen.roundtrip_closed. Qed.
+Print Assumptions pointpen_roundtrip_closed.
+
+(* the canonical form is the same closed contour: same start, same segments once the closing line is written out *)
+Theorem pointpen_canon_same_contour : forall A segs, forallb ProofsPointPen.wf_seg segs = true ->
+  (2 <= length (flat_map ProofsPointPen.seg_points segs))%nat ->
+  exists E segs', ProofsPointPen.canon_closed A segs = MoveTo E :: segs' ++ [ClosePath] /\
+                  (E = A \/ ModelPointPen.pt_eqb A E = true) /\ ProofsPointPen.closing E segs' = ProofsPointPen.closing A segs.
+Proof. exact ProofsPointPen.canon_same_contour. Qed.
+Print Assumptions pointpen_canon_same_contour.
+
+Theorem pointpen_roundtrip_quad_blob : forall ps, (2 <= length ps)%nat -> ProofsPointPen.all_some ps = true ->
+  ProofsPointPen.roundtrip [QCurveTo (ps ++ [None]); ClosePath] = Ok [QCurveTo (ps ++ [None]); ClosePath].
+Proof. exact ProofsPointPen.roundtrip_quad_blob. Qed.
+Print Assumptions pointpen_roundtrip_quad_blob.
